@@ -1340,8 +1340,13 @@ class CambridgeSampler(BallotGenerator):
             )
 
             # Compute the pref interval for this bloc
+            # the bloc's own slate carries the cohesion share, whatever the order of
+            # the slates in the dictionary
             pref_interval_dict = combine_preference_intervals(
-                list(self.pref_intervals_by_bloc[bloc].values()),
+                [
+                    self.pref_intervals_by_bloc[bloc][bloc],
+                    self.pref_intervals_by_bloc[bloc][opp_bloc],
+                ],
                 [cohesion_parameters[bloc], 1 - cohesion_parameters[bloc]],
             )
 
